@@ -5,7 +5,7 @@
 Require Import List NArith Bool.
 Import ListNotations.
 Require Import KV.CrossWindow.Model KV.CrossWindow.Spec KV.CrossWindow.RoundProofs KV.CrossWindow.StepProofs
-        KV.CrossWindow.SdsProofs KV.CrossWindow.NaiveTerm KV.CrossWindow.Tree KV.CrossWindow.Termination KV.CrossWindow.Final KV.CrossWindow.Boundary
+        KV.CrossWindow.SdsProofs KV.CrossWindow.NaiveTerm KV.CrossWindow.WindowLink KV.CrossWindow.Tree KV.CrossWindow.Termination KV.CrossWindow.Final KV.CrossWindow.Boundary
         KV.CrossWindow.SpecProofs KV.CrossWindow.RouteProofs.
 Open Scope N_scope.
 
@@ -164,6 +164,21 @@ Theorem C12_naive_fuel_irrelevant :
     forall x, In x l <-> In x l'.
 Proof. exact naive_fuel_irrelevant. Qed.
 Print Assumptions C12_naive_fuel_irrelevant.
+
+(* The link to the window operator (property C09).  `content_exact` (WindowLink.v) is, word for word, the
+   conclusion of C09_content_exact: the content is the set of stream items with a timestamp in [c - w, c), each
+   once, each with its latest timestamp in the interval.  Two such contents of one stream (closes c <= c', the
+   later one over an extension of the stream) satisfy the window clauses of C12's quantifier - listed once,
+   alive entries stay listed with an arrival time that is not earlier - at every evaluation time now' with
+   c' <= now' + 1; the bound is needed (WindowLink.evaluation_too_early_refuted). *)
+Theorem C12_window_link :
+  forall (iri : str) (w c c' now' : N) (evs more cont cont' : list wtriple),
+    content_exact w c evs cont ->
+    content_exact w c' (evs ++ more) cont' ->
+    c <= c' -> c' <= now' + 1 ->
+    stays_listed now' (iri, w, cont) (iri, w, cont') = true /\ listed_once (iri, w, cont') = true.
+Proof. exact exact_contents_window_consistent. Qed.
+Print Assumptions C12_window_link.
 
 (* the executable oracle of Spec.v (used by the check on every case) computes E *)
 Theorem C12_spec_oracle :
